@@ -16,6 +16,12 @@ if full:
 files = sorted(set(re.findall(r"^\+\+\+ b/(\S+)", open(os.path.join(d, "patch.diff")).read(), re.M)))
 demo = open(os.path.join(d, "demo_cmd.txt")).read().strip().splitlines()[0]
 base = open(os.path.join(d, "base")).read().strip() if os.path.exists(os.path.join(d, "base")) else conf.get("base", "")
+if "suite_exit" not in conf:
+    conf = dict(conf)
+    conf["suite_note"] = ("the whole existing suite was NOT re-run in this scratch-worktree confirmation (machine time: one suite run took 2-3 hours "
+        "under the load of this session, see DESIGN.md §9); what was confirmed here is: the patch applies and builds, the demonstration fails with the change and "
+        "passes without it. The seeding agent's own runs of the suite / of every package that depends on the changed code, with the change applied, are reported "
+        "in AGENT_README.md")
 meta = {
  "id": name, "property": prop,
  "breaks": what or old.get("breaks", ""),
